@@ -5,7 +5,7 @@ from . import rule, info
 from ..program import AnalysisError, src, norm, ClassInfo
 from ..affine import linear, NotAffine
 from ..tables import MISS
-from ..util import (decision_function, Undecidable, locals_from_attrs, is_name, calls_in, callee_qual, deref, ancestors, evaluator_calls, stmt_of, parent,
+from ..util import (repetition_count, dispatch_chain, decision_function, Undecidable, locals_from_attrs, is_name, calls_in, callee_qual, deref, ancestors, evaluator_calls, stmt_of, parent,
                     handler_outcomes, completes_normally, handler_covers, in_handler_of, raised_class, is_subclass,
                     cls_name, fmt_witness)
 from .common import option_usage
@@ -274,26 +274,25 @@ def op_dispatch(ctx):
     p = ctx.program
     u = ctx.unit('core._assign_op')
     cfg = ctx.cfg(u)
-    chain = []
-    s = u.node.body[-1] if isinstance(u.node.body[-1], ast.If) else next((x for x in u.node.body if isinstance(x, ast.If)), None)
-    ctx.require(s is not None, '_assign_op: dispatch not found')
-    while True:
-        chain.append(s)
-        if len(s.orelse) == 1 and isinstance(s.orelse[0], ast.If):
-            s = s.orelse[0]
-        else:
-            break
+    chain, _tail = dispatch_chain(u.node.body)
+    ctx.require(chain, '_assign_op: dispatch not found')
     by = {}
     for c in chain:
         t = c.test
         if isinstance(t, ast.Compare) and is_name(t.left, 'op') and isinstance(t.comparators[0], ast.Constant):
             by[t.comparators[0].value] = c
     ctx.ob(set(by) == {'[', '.', 'P'}, u, 'assignment dispatches on the three assignable step kinds: %s' % sorted(by))
+    def eff(body):
+        # the branch's statements without a trailing bare ``return`` (guard-clause spelling)
+        body = list(body)
+        while body and (isinstance(body[-1], ast.Pass) or isinstance(body[-1], ast.Return) and body[-1].value is None):
+            body.pop()
+        return body
     b = by.get('[')
-    ok = b is not None and len(b.body) == 1 and norm(b.body[0]) == 'dest[arg] = val'
+    ok = b is not None and len(eff(b.body)) == 1 and norm(b.body[0]) == 'dest[arg] = val'
     ctx.ob(ok, u, "'[' stores dest[arg] = val: %s" % (norm(b.body[0]) if b else None))
     b = by.get('.')
-    ok = b is not None and len(b.body) == 1 and norm(b.body[0]) == 'setattr(dest, arg, val)'
+    ok = b is not None and len(eff(b.body)) == 1 and norm(b.body[0]) == 'setattr(dest, arg, val)'
     ctx.ob(ok, u, "'.' sets the attribute: %s" % (norm(b.body[0]) if b else None))
     b = by.get('P')
     ctx.require(b is not None, "_assign_op: 'P' branch not found")
@@ -317,7 +316,7 @@ def op_dispatch(ctx):
                 and isinstance(rs[0].exc, ast.Call) and is_name(rs[0].exc.args[0], h.ast.name) \
                 and [a.id if isinstance(a, ast.Name) else None for a in rs[0].exc.args[1:]] == ['path', 'arg']
             ctx.ob(ok, u, 'and converted to PathAssignError(<caught>, path, arg): %s' % [norm(r) for r in rs])
-    last = chain[-1].orelse
+    last = _tail
     ctx.ob(len(last) == 1 and isinstance(last[0], ast.Raise), u, 'any other step kind is refused, never ignored')
     ctx.floor(12)
 
@@ -375,23 +374,33 @@ def broadcast(ctx):
         ok = len(direct) == 1 and direct[0] in r_plain and direct[0] not in r_star \
             and all(n is direct[0] or isinstance(n.ast, (ast.Return, ast.Pass)) for n in only_plain)
         ctx.ob(ok, u, 'without wildcards the operation is applied to the single destination: %s' % [norm(n.ast) for n in only_plain])
-        loops = [n for n in cfg.nodes if n.kind in ('for',) and n in r_star and n not in r_plain]
-        ctx.ob(len(loops) == 2, u, 'flatten loop + apply loop')
-        if len(loops) == 2:
-            fl = [n.ast for n in loops if isinstance(n.ast.iter, ast.Call) and is_name(n.ast.iter.func, 'range')]
-            ap = [n.ast for n in loops if n.ast not in fl]
+        loop_asts = [x for x in u.own_nodes() if isinstance(x, (ast.For, ast.While))
+                     and cfg.node_of(x) in r_star and cfg.node_of(x) not in r_plain]
+        ctx.ob(len(loop_asts) == 2, u, 'flatten loop + apply loop')
+        if len(loop_asts) == 2:
+            counted = [(x, repetition_count(cfg, u, x)) for x in loop_asts]
+            fl = [(x, rc) for x, rc in counted if rc is not None]
+            ap = [x for x, rc in counted if rc is None and isinstance(x, ast.For)]
             ctx.ob(len(fl) == 1 and len(ap) == 1, u, 'one counted flatten loop and one loop over the matches')
             if len(fl) == 1 and len(ap) == 1:
-                fl, ap = fl[0], ap[0]
+                (fl, (count, counter)), ap = fl[0], ap[0]
                 # flatten (layers - 1) times
                 try:
-                    ok = len(fl.iter.args) == 1 and linear(fl.iter.args[0], {lv: (1, 0)}) == (1, -1)
+                    ok = linear(count, {lv: (1, 0)}) == (1, -1)
                 except NotAffine:
                     ok = False
-                ctx.ob(ok, u, 'one flattening per wildcard beyond the first: %s' % norm(fl.iter))
-                ok = len(fl.body) == 1 and norm(fl.body[0]) == '%s = sum(%s, [])' % (val, val)
-                ctx.ob(ok, u, 'flattening concatenates into a new list (the fetched lists are not modified): %s' % [norm(s) for s in fl.body])
-                ok = is_name(ap.iter, val) and len(ap.body) == 1 and is_name(ap.target) \
+                ctx.ob(ok, u, 'one flattening per wildcard beyond the first: %s' % norm(count))
+                work = [s_ for s_ in fl.body if not (isinstance(s_, ast.AugAssign) and counter and is_name(s_.target, counter))]
+                b = match(work[0], '$x = sum($x, [])') if len(work) == 1 else None
+                ctx.ob(b is not None, u, 'flattening concatenates into a new list (the fetched lists are not modified): %s'
+                       % [norm(s_) for s_ in work])
+                xv = b['x'] if b else None
+                # the list being flattened starts as the fetched matches
+                if xv and xv != val:
+                    d0 = [v for dn, v in cfg.reaching_defs(cfg.node_of(fl), xv, split=False) if cfg.node_of(fl) not in dn.loop_stack]
+                    ctx.ob(len(d0) == 1 and is_name(d0[0], val), u, 'the flattening starts from the fetched matches: %s = %s'
+                           % (xv, [norm(v) for v in d0 if isinstance(v, ast.AST)]))
+                ok = xv is not None and is_name(ap.iter, xv) and len(ap.body) == 1 and is_name(ap.target) \
                     and norm(ap.body[0]) == '%s(%s)' % (func, ap.target.id) \
                     and cfg.dominates(cfg.node_of(fl), cfg.node_of(ap))
                 ctx.ob(ok, u, 'the operation is applied to every match in order, after flattening: %s' % norm(ap))
